@@ -85,10 +85,11 @@ def decode_accepts_mutable(n):
     check(r == onum(b, n), "bytearray input")
 
 
-def after_earlier_calls(n):
-    """the codec has no memory: results do not depend on what was encoded / decoded earlier in the process"""
+def after_earlier_calls(n, n0=None):
+    """the codec has no memory: results do not depend on what was encoded / decoded earlier in the process
+    (the earlier input may be shorter or longer than the later one)"""
     m0 = sym_int("m0", 0, P4 - 1)
-    b0 = sym_bytes("b0", n)
+    b0 = sym_bytes("b0", n if n0 is None else n0)
     encode_number(m0)
     decode_number(b0)
     m = sym_int("n", 0, P4 - 1)
